@@ -56,10 +56,20 @@ fn parse_chain(e: &Expr) -> Option<Chain> {
     None
 }
 
-pub struct Lower { pub n: usize, pub sites: usize, pub vec_params: Vec<String>, pub last_sink_name: Option<(String, syn::Ident)> }
+fn clone_adapters(a: &[Adapter]) -> Vec<Adapter> {
+    a.iter().map(|x| match x {
+        Adapter::Enumerate => Adapter::Enumerate, Adapter::Rev => Adapter::Rev,
+        Adapter::Zip(s) => Adapter::Zip(clone_source(s)),
+        Adapter::Filter(c) => Adapter::Filter(c.clone()), Adapter::Map(c) => Adapter::Map(c.clone()), Adapter::FilterMap(c) => Adapter::FilterMap(c.clone()),
+    }).collect()
+}
+fn clone_source(s: &Source) -> Source {
+    match s { Source::Iter(e) => Source::Iter(e.clone()), Source::IterMut(e) => Source::IterMut(e.clone()), Source::Range(a, b) => Source::Range(a.clone(), b.clone()), Source::VecVal(e) => Source::VecVal(e.clone()), Source::SliceRange(e, a, b, m) => Source::SliceRange(e.clone(), a.clone(), b.clone(), *m) }
+}
+pub struct Lower { pub n: usize, pub sites: usize, pub vec_params: Vec<String>, pub last_sink_name: Option<(String, syn::Ident)>, pub last_src_name: Option<syn::Ident> }
 
 impl Lower {
-    pub fn new(vec_params: Vec<String>) -> Self { Lower { n: 0, sites: 0, vec_params, last_sink_name: None } }
+    pub fn new(vec_params: Vec<String>) -> Self { Lower { n: 0, sites: 0, vec_params, last_sink_name: None, last_src_name: None } }
     fn fresh(&mut self, p: &str) -> syn::Ident { let i = format_ident!("__{}{}", p, self.n); self.n += 1; i }
 
     // bind `pat` to value expression `val`, eliminating `&x` reference patterns (rule P)
@@ -94,6 +104,19 @@ impl Lower {
     fn src_item(&self, s: &Source, k: &TokenStream) -> TokenStream { match s { Source::Iter(e) => quote!(&#e[#k]), Source::IterMut(e) => quote!(&mut #e[#k]), Source::VecVal(e) => quote!(#e[#k]), Source::Range(a, _) => quote!((#a) + #k), Source::SliceRange(e, a, _, m) => if *m { quote!(&mut #e[(#a) + #k]) } else { quote!(&#e[(#a) + #k]) } } }
 
     fn emit(&mut self, ch: &Chain, sink: Sink) -> Expr {
+        // a source that is not a place expression (it contains a call) is evaluated once, as std does: bind it first
+        fn is_place(e: &Expr) -> bool { match strip(e) { Expr::Path(_) => true, Expr::Field(f) => is_place(&f.base), Expr::Index(i) => is_place(&i.expr), Expr::Unary(u) => is_place(&u.expr), Expr::Reference(r) => is_place(&r.expr), Expr::MethodCall(m) => (m.method == "as_slice" || m.method == "as_mut_slice") && m.args.is_empty() && is_place(&m.receiver), _ => false } }
+        let mut src_bind: Option<TokenStream> = None;
+        let owned_chain;
+        let ch: &Chain = match &ch.source {
+            Source::Iter(e) if !is_place(e) => { let s = self.fresh("s"); self.last_src_name = Some(s.clone()); src_bind = Some(quote!(let #s = #e;)); owned_chain = Chain { source: Source::Iter(parse_quote!(#s)), adapters: clone_adapters(&ch.adapters) }; &owned_chain }
+            Source::IterMut(e) if !is_place(e) => { let s = self.fresh("s"); self.last_src_name = Some(s.clone()); src_bind = Some(quote!(let mut #s = #e;)); owned_chain = Chain { source: Source::IterMut(parse_quote!(#s)), adapters: clone_adapters(&ch.adapters) }; &owned_chain }
+            _ => ch,
+        };
+        let inner = self.emit_inner(ch, sink);
+        match src_bind { Some(b) => parse_quote!({ #b #inner }), None => inner }
+    }
+    fn emit_inner(&mut self, ch: &Chain, sink: Sink) -> Expr {
         self.sites += 1;
         let k = self.fresh("k");
         let it = self.fresh("it");
@@ -182,6 +205,7 @@ impl Lower {
         if let Some(Some(c)) = counters.iter().find(|c| c.is_some()) { nm.push(quote!(e = #c)); }
         if let Some(s) = &self.last_sink_name { let (key, id) = s; let key = format_ident!("{}", key); nm.push(quote!(#key = #id)); }
         self.last_sink_name = None;
+        if let Some(s) = self.last_src_name.take() { nm.push(quote!(s = #s)); }
         let e: Expr = parse_quote!({
             #init
             #(#pre_inits)*
